@@ -49,6 +49,18 @@ type State struct {
 	alloc  string
 	reach  string
 	defers []*deferRec
+	// A key that is absent from heap has the value it had at function entry (key@0) — unless everything was havocked
+	// on the way to this state (unknown callee, `modifies everything`): epoch > 0 then names the generation of unknown
+	// values such a key holds. A state merged from states with different histories resolves absent keys lazily from
+	// its predecessors (mergeOf / mergeConds).
+	epoch      int
+	mergeOf    []*State
+	mergeConds []string
+}
+
+type dryCached struct {
+	st  *State
+	key string
 }
 
 type deferRec struct {
@@ -60,7 +72,7 @@ type deferRec struct {
 }
 
 func (s *State) clone() *State {
-	n := &State{heap: make(map[string]string, len(s.heap)), alloc: s.alloc, reach: s.reach}
+	n := &State{heap: make(map[string]string, len(s.heap)), alloc: s.alloc, reach: s.reach, epoch: s.epoch, mergeOf: s.mergeOf, mergeConds: s.mergeConds}
 	for k, v := range s.heap {
 		n.heap[k] = v
 	}
@@ -132,6 +144,7 @@ type Enc struct {
 	curFrameForSite *Frame
 	dynImpl         map[string]bool
 	qbound          []string // names of the quantifier variables whose body is being evaluated
+	dryCache        []dryCached
 	recGhost        map[string]bool
 }
 
@@ -244,8 +257,45 @@ func (e *Enc) heapGet(st *State, key, sort string) string {
 		e.unsupportedf("heap key %s used at sorts %s and %s", key, s, sort)
 	}
 	e.heapSort[key] = sort
+	if st.mergeOf != nil {
+		// first use of this key after a join of different histories
+		var terms []string
+		same := true
+		for _, p := range st.mergeOf {
+			t := e.heapGet(p, key, sort)
+			terms = append(terms, t)
+			if t != terms[0] {
+				same = false
+			}
+		}
+		r := terms[0]
+		if !same {
+			r = e.fresh(key, sort)
+			for i, t := range terms {
+				e.assert(implies(st.mergeConds[i], eq(r, t)))
+			}
+		}
+		st.heap[key] = r
+		if e.dry > 0 {
+			// the names were declared inside a dry run and are rolled back with it
+			e.dryCache = append(e.dryCache, dryCached{st, key})
+		}
+		return r
+	}
+	if st.epoch > 0 {
+		// first use of this key after everything was havocked: an unknown value, not the entry value
+		return e.declConst(sym(fmt.Sprintf("%s@hv%d", key, st.epoch)), sort)
+	}
 	n := e.declConst(sym(key+"@0"), sort)
 	return n
+}
+
+// havocUnknown: every heap key that was never touched so far holds an unknown value from now on.
+func (e *Enc) havocUnknown(st *State) {
+	e.nfresh++
+	st.epoch = e.nfresh
+	st.mergeOf, st.mergeConds = nil, nil
+	e.writeLog["*"] = true
 }
 
 func (e *Enc) heapSet(st *State, key, sort, term string) {
@@ -652,6 +702,18 @@ func (e *Enc) mergeStates(hint string, sts []*State, conds []string) *State {
 	}
 	n := &State{heap: map[string]string{}}
 	n.reach = e.nameBool(hint+"!reach", or(conds...))
+	sameHist := true
+	for _, s := range sts {
+		if s.epoch != sts[0].epoch || s.mergeOf != nil {
+			sameHist = false
+		}
+	}
+	if sameHist {
+		n.epoch = sts[0].epoch
+	} else {
+		n.mergeOf = append([]*State(nil), sts...)
+		n.mergeConds = append([]string(nil), conds...)
+	}
 	keys := map[string]bool{}
 	for _, s := range sts {
 		for k := range s.heap {
